@@ -196,8 +196,22 @@ func (ex *Exec) callVF(caller *frame, fn *ssa.Function, args []Value) (Value, bo
 		}
 		return nil, true
 	case "Go":
+		ex.spawningHarness = true
 		ex.spawn(caller, args[0], nil)
+		ex.spawningHarness = false
 		return nil, true
+	case "HelpersDone":
+		if ex.tr != nil && ex.trOn() {
+			r := ex.tr.fresh(ex, 1)
+			ex.tr.emit(ex, TraceEvent{Kind: "helpersdone", Res: []*smt.Term{r}})
+			return smt.Eq(r, smt.BVC(1, 1)), true
+		}
+		for _, g := range ex.gs {
+			if g.id != 0 && !g.harness && !g.done {
+				return smt.False, true
+			}
+		}
+		return smt.True, true
 	case "WaitAll":
 		if ex.tr != nil {
 			ex.trWaitAll()
